@@ -292,18 +292,17 @@ Proof.
     rewrite (env_cscore_spec K C pssm sq wrap v Hwf Henv i Hi). auto.
 Qed.
 
-(* and with the conservativeness hypothesis reduced to property C08's own two conditions,
-   through the theorems of the discretisation group (coq/disc: scale is monotone in
-   binary32 when the sign bit of the factor is clear): (a) the factor's sign bit is clear
-   (it is set only for the signed-zero matrices of known finding F14b), (b) C08's main
-   clause at every position: the byte score is at least the byte image of the real score *)
+(* and with the conservativeness hypothesis reduced to property C08's own main clause at
+   every position (the byte score is at least the byte image of the real score), through
+   the theorems of the discretisation group (coq/disc): scale is monotone in binary32 when
+   the sign bit of the factor is clear (C08_scale_monotone_f32), and since the repair of
+   F14b (factor = |max_score - offset| / 255) it always is (DiscLink.env_sign_clear) *)
 Theorem C02_concrete_scan_c08 :
   forall (K C : nat) (pssm : list (list F32.t)) (sq : list nat) (wrap : nat) (v : cenv)
          (am : arm) (thr : F32.t) (B : nat),
     wf_input K C pssm sq wrap ->
     c_env K C pssm sq wrap = Ok v ->
     1 <= B ->
-    factor_sign_clear (ce_dm v) = true ->
     (forall i, i + length pssm <= length sq ->
                c_scale (ce_dm v) (score_def K sq pssm i) <= dscore_def K sq (d_data (ce_dm v)) i) ->
     exists H : list (nat * F32.t),
@@ -313,9 +312,10 @@ Theorem C02_concrete_scan_c08 :
                    F32.ge (score_def K sq pssm i) thr = true /\ x = score_def K sq pssm i) /\
       NoDup (map fst H).
 Proof.
-  intros K C pssm sq wrap v am thr B Hwf Henv HB Hsign Hmain.
+  intros K C pssm sq wrap v am thr B Hwf Henv HB Hmain.
   apply (C02_concrete_scan_explicit K C pssm sq wrap v am thr B Hwf Henv HB).
-  intros i Hi Hg. exact (c_scale_transfer (ce_dm v) _ thr _ Hsign (Hmain i Hi) Hg).
+  intros i Hi Hg.
+  exact (c_scale_transfer (ce_dm v) _ thr _ (env_sign_clear K C pssm sq wrap v Henv) (Hmain i Hi) Hg).
 Qed.
 
 (* soundness needs no hypothesis at all on the concrete scanner: whatever the matrix,
@@ -454,10 +454,9 @@ Example C02_concrete_runs :
     = [33; 31; 29; 25; 23; 21; 17; 15; 13; 9; 5; 26; 24; 20; 18; 8; 0].
 Proof. vm_compute. repeat split; reflexivity. Qed.
 
-(* ... and the two C08 conditions of C02_concrete_scan_c08 hold on that instance *)
+(* ... and the C08 condition of C02_concrete_scan_c08 holds on that instance *)
 Example C02_concrete_c08_nonvacuous :
-  factor_sign_clear (ce_dm Ex.env) = true /\
-  (forall i, i + length Ex.pssm <= length Ex.sq ->
-             c_scale (ce_dm Ex.env) (score_def 5 Ex.sq Ex.pssm i)
-             <= dscore_def 5 Ex.sq (d_data (ce_dm Ex.env)) i).
-Proof. split; [exact Ex_sign_clear|exact Ex_main]. Qed.
+  forall i, i + length Ex.pssm <= length Ex.sq ->
+            c_scale (ce_dm Ex.env) (score_def 5 Ex.sq Ex.pssm i)
+            <= dscore_def 5 Ex.sq (d_data (ce_dm Ex.env)) i.
+Proof. exact Ex_main. Qed.
